@@ -87,6 +87,7 @@ instance (p) : Decidable (Finite p) := by unfold Finite; infer_instance
 /-- the builder's parameter table (hyperparams.rs:77-83) also gives `max_iterations` the range `[1, inf)`; no guard
 reads that field, so it is not part of the translated `Params`: the full documented range takes it as an argument -/
 def DocRange (p : ElasticNet.Params) (max_iterations : Nat) : Prop := InRange p ∧ 1 ≤ max_iterations
+instance (p mi) : Decidable (DocRange p mi) := by unfold DocRange; infer_instance
 end ElasticNet
 
 namespace Logistic
@@ -283,6 +284,75 @@ def RandomProjection.withRng (p : Gen.C04.RandomProjection.Params) : Gen.C04.Ran
 /-- a `TfIdfVectorizer` is an unchecked count-vectoriser builder next to a method; each of its setters rebuilds the
 pair around the inner builder's setter: `Self { count_vectorizer: self.count_vectorizer.f(..), method: self.method }` -/
 def tfidfSet {P M : Type} (f : P → P) (w : P × M) : P × M := (f w.1, w.2)
+
+/-! ### the setters of `CountVectorizerParams` (countgrams/hyperparams.rs) and of the `TfIdfVectorizer` wrapper
+
+Each setter of the builder is `mut self; self.0.<field> = v; self`.  Three assign a field the guard reads (`n_gram_range`,
+`document_frequency`, and `tokenizer(Tokenizer::Regex(s))`, which replaces the expression `check_ref` compiles: the model
+carries the outcome of that external call, `compiles`); the other four (`max_features`, `convert_to_lowercase`,
+`normalize`, `stopwords`) assign fields no guard reads.  `cvDefault` is `CountVectorizerParams::default()` restricted to
+the guarded fields.  The driver answers the requests `b=CountVectorizer sets=…` by running the call chain through `cvRun`
+(plain builder) or `tfidfRun` (wrapper: every call goes through `tfidfSet`). -/
+
+inductive CvSet where
+  /-- `.n_gram_range(min_n, max_n)` -/
+  | nGramRange (a b : Nat)
+  /-- `.document_frequency(min_freq, max_freq)` -/
+  | documentFrequency (lo hi : XF)
+  /-- `.tokenizer(Tokenizer::Regex(s))`; `compiles` = whether `SerdeRegex::new(s)` succeeds -/
+  | tokenizerRegex (compiles : Bool)
+  /-- `.max_features(_)` -/
+  | maxFeatures
+  /-- `.convert_to_lowercase(_)` -/
+  | convertToLowercase
+  /-- `.normalize(_)` -/
+  | normalize
+  /-- `.stopwords(_)` -/
+  | stopwords
+
+/-- does the setter assign a field the guard reads? -/
+def CvSet.isGuarded : CvSet → Bool
+  | .nGramRange _ _ => true
+  | .documentFrequency _ _ => true
+  | .tokenizerRegex _ => true
+  | _ => false
+
+def CvSet.apply (p : Gen.C04.CountVectorizer.Params) : CvSet → Gen.C04.CountVectorizer.Params
+  | .nGramRange a b => { p with n_gram_range := (a, b) }
+  | .documentFrequency lo hi => { p with document_frequency := (lo, hi) }
+  | .tokenizerRegex ok => { p with split_regex_ok := ok }
+  | _ => p
+
+/-- `CountVectorizerParams::default()`: `n_gram_range: (1, 1)`, `document_frequency: (0., 1.)`, the default expression
+`\b\w\w+\b` compiles -/
+def cvDefault : Gen.C04.CountVectorizer.Params :=
+  { n_gram_range := (1, 1), document_frequency := (.fin 0, .fin 1), split_regex_ok := true }
+
+/-- a call chain on `CountVectorizer::params()` -/
+def cvRun (ops : List CvSet) : Gen.C04.CountVectorizer.Params := ops.foldl CvSet.apply cvDefault
+
+/-- the same chain on `TfIdfVectorizer::default()`: every call rebuilds the wrapper around the inner builder's setter -/
+def tfidfRun {M : Type} (m : M) (ops : List CvSet) : Gen.C04.CountVectorizer.Params × M :=
+  ops.foldl (fun w s => tfidfSet (fun p => CvSet.apply p s) w) (cvDefault, m)
+
+/-- one setter call `name[:args]` of a `sets=` request -/
+def parseCvSet (s : String) : Option CvSet :=
+  match s.splitOn ":" with
+  | ["ng", args] => (pairOf LinfaSpec.Proto.parseNat args).map fun (a, b) => .nGramRange a b
+  | ["df", args] => (pairOf parseXF args).map fun (a, b) => .documentFrequency a b
+  | ["tok", "1"] => some (.tokenizerRegex true)
+  | ["tok", "0"] => some (.tokenizerRegex false)
+  | ["maxf"] => some .maxFeatures
+  | ["lower"] => some .convertToLowercase
+  | ["norm"] => some .normalize
+  | ["stop"] => some .stopwords
+  | _ => none
+
+/-- `b=CountVectorizer sets=s1;s2;…` (driver entry point): the parameters the chain leaves in the builder — through the
+wrapper when the entry point is one of `TfIdfVectorizer` (`wrapped`) -/
+def cvOfChain (wrapped : Bool) (toks : List String) : Option Gen.C04.CountVectorizer.Params := do
+  let ops ← (LinfaSpec.Proto.arg toks "sets").bind fun s => (LinfaSpec.Proto.splitOn' (if s = "-" then "" else s) ";").mapM parseCvSet
+  pure (if wrapped then (tfidfRun () ops).1 else cvRun ops)
 
 /-- the translated check of the builder after the named rebuild setter (driver entry point; `none`: unknown name).
 Setters that do not assign a guarded field act as the identity on `Params`. -/
